@@ -251,6 +251,8 @@ CHECKS = {
              "checks": {"quick": 2500, "thorough": 25000}, "shards": {"quick": 4, "thorough": 16}},
             {"name": "intraproxy", "pkg": "proxy", "run": "^TestVF_C08_IntraProxy$",
              "checks": {"quick": 600, "thorough": 6000}, "shards": {"quick": 2, "thorough": 8}},
+            {"name": "multinode", "pkg": "proxy", "run": "^TestVF_C08_MultiNode$",
+             "checks": {"quick": 300, "thorough": 4000}, "shards": {"quick": 4, "thorough": 16}},
             {"name": "intraproxyrecv", "pkg": "proxy", "run": "^TestVF_C08_IntraProxyReceiver$",
              "checks": {"quick": 400, "thorough": 4000}, "shards": {"quick": 4, "thorough": 16}},
         ],
